@@ -33,7 +33,7 @@ from typing import Tuple, TYPE_CHECKING, Dict
 
 import deep.logging
 from deep.api.tracepoint.eventsnapshot import WATCH_SOURCE_CAPTURE
-from deep.logging import logging
+from deep import logging
 from deep.api.tracepoint import WatchResult, Variable
 from deep.processor.variable_set_processor import VariableSetProcessor, VariableCacheProvider, \
     VariableProcessorConfig
